@@ -102,6 +102,12 @@ fn rot_ranges(t: u8, b: &[u8]) -> Vec<(usize, usize)> {
     }
 }
 
+fn same_outside_rotation(t: u8, a: &[u8], b: &[u8]) -> bool {
+    if a.len() != b.len() { return false; }
+    let rr = rot_ranges(t, a);
+    (0..a.len()).all(|i| rr.iter().any(|(s, e)| i >= *s && i < *e) || a[i] == b[i])
+}
+
 fn same_mod_rotation(t: u8, a: &[u8], b: &[u8]) -> bool {
     if a.len() != b.len() { return false; }
     let rr = rot_ranges(t, a);
@@ -149,7 +155,13 @@ fn roundtrip<P: Packetize + PartialEq2>(t: u8, bytes0: &[u8]) -> Vec<i64> {
                      [-sp, cp * sr, cp * cr]];
             for i in 0..3 { for j in 0..3 { if !((r[(i, j)] as f64 - m[i][j]).abs() < 5e-4) { wire_ok = false; } } }
         }
-        let ok = o.same(&o2) && same_mod_rotation(t, &b0, &b2) && wire_ok;
+        // lossless = the same orientation comes back: the angle words agree, or - where several angle triples describe one
+        // orientation (pitch of exactly a quarter turn) - the decoded rotations agree
+        let mats_same = o.rots().len() == o2.rots().len() && o.rots().iter().zip(o2.rots()).all(|(a, b)| (0..3).all(|i| (0..3).all(|j| (a[(i, j)] - b[(i, j)]).abs() < 5e-4)));
+        let equiv = same_mod_rotation(t, &b0, &b2) || (same_outside_rotation(t, &b0, &b2) && mats_same);
+        let b3 = o2.to_bytes();
+        let again = o.same(&o2) || (same_outside_rotation(t, &b2, &b3) && mats_same);
+        let ok = again && equiv && wire_ok;
         let frame: Vec<u8> = rt().block_on(async {
             // a transport that takes a few bytes per write and is not always ready (a socket with a nearly full
             // buffer): what arrives must still be the whole frame
@@ -157,16 +169,16 @@ fn roundtrip<P: Packetize + PartialEq2>(t: u8, bytes0: &[u8]) -> Vec<i64> {
             s.send_packet(&o).await.unwrap();
             s.inner().buf.clone()
         });
-        Some((ok, frame, b2))
+        Some((ok, frame, b2, equiv))
     });
     match res {
         Err(_) => vec![-1],
         Ok(None) => vec![0],
-        Ok(Some((ok, frame, b2))) => {
+        Ok(Some((ok, frame, b2, equiv))) => {
             let mut o = vec![ok as i64];
             // the payload part is reported as the reference bytes when it equals them up to the
             // float tolerance of the rotation fields
-            if frame.len() >= 10 && frame[10..] == b2[..] && same_mod_rotation(t, bytes0, &b2) {
+            if frame.len() >= 10 && frame[10..] == b2[..] && equiv {
                 o.extend(frame[..10].iter().map(|x| *x as i64)); o.extend(bytes0.iter().map(|x| *x as i64));
             } else { o.extend(frame.iter().map(|x| *x as i64)); }
             o
@@ -216,6 +228,8 @@ pub fn exec(c: &[i64]) -> Vec<i64> {
 // ---------------------------------------------------------------- reference encodings (generator side)
 fn f32b(x: f32) -> [u8; 4] { x.to_bits().to_be_bytes() }
 fn ang(rng: &mut Rng, lim: f32) -> f32 { (rng.range(-1000, 1000) as f32) / 1000.0 * lim }
+/// a pitch word: mostly inside the open quarter turn, one in eight exactly a quarter turn up or down (several angle triples, one orientation)
+fn pitch(rng: &mut Rng) -> f32 { if rng.chance(1, 8) { if rng.chance(1, 2) { std::f32::consts::FRAC_PI_2 } else { -std::f32::consts::FRAC_PI_2 } } else { ang(rng, 1.4) } }
 fn name(rng: &mut Rng, max: usize) -> Vec<u8> {
     let n = match rng.below(6) { 0 => 0, 1 => max, 2 => max.min(64), _ => rng.below(max as u64 + 1) as usize };
     if rng.chance(1, 4) {
@@ -260,14 +274,17 @@ pub fn valid_bytes(t: u8, rng: &mut Rng) -> Vec<u8> {
         T_ENGINE => { v.extend([rng.byte(), rng.byte()]); v.extend((rng.next() as u16).to_be_bytes()); v.push(*rng.pick(&[0u8, 1, 2, 0x10])); }
         T_TARGET => {
             for _ in 0..3 { v.extend(f32b(ang(rng, 900.0))); }
-            v.extend(f32b(ang(rng, 3.0))); v.extend(f32b(ang(rng, 1.4))); v.extend(f32b(ang(rng, 3.0)));
+            // (the Target orientation is a quaternion: also pitches within a milliradian of the quarter turn, where a
+            //  single-precision Euler extraction loses roll and yaw)
+            let p = if rng.chance(1, 8) { let d = *rng.pick(&[2e-7f32, 1e-6, 1e-5, 1e-4, 1e-3]); if rng.chance(1, 2) { std::f32::consts::FRAC_PI_2 - d } else { d - std::f32::consts::FRAC_PI_2 } } else { pitch(rng) };
+            v.extend(f32b(ang(rng, 3.0))); v.extend(f32b(p)); v.extend(f32b(ang(rng, 3.0)));
             v.push(*rng.pick(&[0u8, 1, 2, 20, 21, 22]));
         }
         T_CONTROL => {
             let k = *rng.pick(&[0x5u8, 0x6, 0x7, 0x8, 0x9, 0xA, 0xB, 0x1B, 0x1C, 0x2D, 0x1E, 0x1F, 0x20]);
             v.push(k); v.push(if k == 0xB || k == 0x1B { 1 } else { rng.below(2) as u8 });
         }
-        T_ROTATOR => { v.push(rng.byte()); v.extend(f32b(ang(rng, 3.0))); v.extend(f32b(ang(rng, 1.4))); v.extend(f32b(ang(rng, 3.0))); v.push(rng.below(2) as u8); }
+        T_ROTATOR => { v.push(rng.byte()); v.extend(f32b(ang(rng, 3.0))); v.extend(f32b(pitch(rng))); v.extend(f32b(ang(rng, 3.0))); v.push(rng.below(2) as u8); }
         _ => {
             let n = name(rng, 255); str16(&mut v, &n);
             let cnt = match rng.below(8) { 0 => 0, 1 => 2, 2 => 3, 3 => 4 + rng.below(30), _ => 1 + rng.below(3) } as usize;
@@ -275,7 +292,7 @@ pub fn valid_bytes(t: u8, rng: &mut Rng) -> Vec<u8> {
             for _ in 0..cnt {
                 let sn = name(rng, if cnt > 4 { 12 } else { 255 }); str16(&mut v, &sn);
                 for _ in 0..3 { v.extend(f32b(ang(rng, 700.0))); }
-                v.extend(f32b(ang(rng, 3.0))); v.extend(f32b(ang(rng, 1.4))); v.extend(f32b(ang(rng, 3.0)));
+                v.extend(f32b(ang(rng, 3.0))); v.extend(f32b(pitch(rng))); v.extend(f32b(ang(rng, 3.0)));
             }
         }
     }
